@@ -23,7 +23,7 @@ PROPS = {
                 "clean suffixes of length <= k; every state x every input class x every continuation, from 3 "
                 "prefixes); (4) structured long inputs for every k 1..=31. A case is counted non-trivial when the "
                 "input is at least k long, and counted once (cases of later families that also lie in the small "
-                "scope are not counted again).",
+                "scope are not counted again). Every case of 16..=4096 bytes is run again at each of the seven other start addresses modulo 8 (longer inputs: one other). One record of 2^32 + 1000 unambiguous bases is streamed through the iterator: number of pairs, both ends against the model, pairs on a stride.",
         "states": (["model_states_max"], ["model_transitions_max"], ["traces_validated"]),
         "assumptions": COMMON_ASSUME + [
             "completeness beyond the enumerated lengths rests on the W-method assumption that the implementation is "
@@ -31,12 +31,12 @@ PROPS = {
             "the property leaves them unspecified"],
     },
     "C02": {
-        "parts": [ktmc("C02")],
+        "parts": [ktmc("C02"), lambda tier: __import__("hist").c_first_calls(tier)],
         "rule": "every code x < 4^k for all small k (rev_comp involution, agreement with text-level reverse "
                 "complement, decode/re-encode), a digit-pattern family (prefix/fill/suffix, extremes, palindromes) "
                 "for every larger k up to 31, and strand symmetry of the iterator on every string over {A,C,G,T,N} "
                 "up to the stated length x k 1..=5 plus structured inputs for k 6..=31; every case is distinct; "
-                "non-trivial = code checks (all) and streams with at least one window position",
+                "non-trivial = code checks (all) and streams with at least one window position One record of 2^32 + 1000 unambiguous bases: number of pairs, both ends, (code, reverse complement) on a stride.",
         "assumptions": COMMON_ASSUME + ["codes for k above the exhaustive bound are covered by the stated family only"],
     },
     "C09": {
@@ -46,7 +46,7 @@ PROPS = {
                 "15 pairs m<=w<=5; transition cover (states = clean suffixes of length <= w) for w in 6..8 and every "
                 "m; structured low-complexity inputs with embedded N for every m 1..=31 and w up to m+60. "
                 "Non-trivial = input at least w long; class counters show ties, change-at-last-base and short "
-                "trailing stretches are all populated.",
+                "trailing stretches are all populated. Windows with 255..257, 65 535..65 537, 100 000 and 131 072 m-mer slots on 600 000-base inputs against a second (monotone-queue) model that is held against the defining one on every short input first; one minimiser over more than 2^22 windows; start addresses as in C01.",
         "states": (["model_states_max"], ["model_transitions_max"], ["traces_validated"]),
         "assumptions": COMMON_ASSUME + ["W-method assumption as for C01 for inputs longer than enumerated"],
     },
@@ -67,7 +67,7 @@ PROPS.update({
         "rule": "every k in 1..=10 with all 4^k codes: column count = closed form, every canonical code maps to its "
                 "rank in the sorted model index and the inverse map returns it; header through get_header (k<=8) and "
                 "through both writer paths x 3 delimiters (k<=6); header line of `kmertools comp oligo -H` for k 3..=7 x 3 presets x "
-                "(default, -c) and of pykmertools get_header for k 1..=8. Non-trivial = each canonical code / header checked. The index maps (all codes) and the header line for k 1..=7 are recomputed under `taskset` with 1, 2, 3 and 6 usable CPUs (thorough: every count below the machine's).",
+                "(default, -c) and of pykmertools get_header for k 1..=8. Non-trivial = each canonical code / header checked. The index maps (all codes) and the header line for k 1..=7 are recomputed under `taskset` with 1, 2, 3 and 6 usable CPUs (thorough: every count below the machine's). Header line before one batch of 41 MB of rows (9 000 records, k 4 and 5, file and standard input, both writers): first line, once.",
         "assumptions": COMMON_ASSUME,
     },
     "C04": {
@@ -111,24 +111,24 @@ PROPS.update({
     "C11": {
         "technique": "bounded-exhaustive enumeration of inputs and configurations against a reference model, plus stateless controlled-scheduler exploration of the items of the data-parallel batch path",
         "needs": ["harness", "cli"],
-        "parts": [ktmc("C11"), ktmc("C11batch"), lambda tier: __import__("hist").c_env_cpus(tier, ['cgr']), lambda tier: __import__("hist").c_sink_fifo(tier, ['cgr'])],
+        "parts": [ktmc("C11"), ktmc("C11batch"), lambda tier: __import__("hist").c_env_cpus(tier, ['cgr']), lambda tier: __import__("hist").c_sink_fifo(tier, ['cgr']), lambda tier: __import__("hist").c_source_fifo(tier, ['cgr'])],
         "rule": "every string over {A,C,G,T} up to the stated length and every mixed-case/U string up to length 5-6 x "
                 "7 square sizes, bit-exact against an exact dyadic-rational model; every string with a bad byte over "
                 "{A,C,G,T,N,x} and every byte value outside the ten letters in short contexts must be refused; long "
                 "periodic inputs for prefix determinism and sub-square containment; the file path on 7 record sets "
                 "x threads 1..=16 x 3 batch limits. Non-trivial = non-empty input."
-                " Batch path under the controlled scheduler: every order in which the items of a batch of 2 or 3 records run (4 records: up to the stated preemption bound), one batch and several batches, each item being a task whose shim lock / atomic operations are scheduling points; oracle per schedule: the bytes of the one-thread run. Usable CPUs as an environment dimension: the command line under `taskset` with 1, 2, 3 and 6 usable CPUs (thorough: every count below the machine's) x -t in (0,1,2,3,4,8,16) x 3, 16 and 37 records; oracle: the result of the unrestricted one-thread run.",
+                " Batch path under the controlled scheduler: every order in which the items of a batch of 2 or 3 records run (4 records: up to the stated preemption bound), one batch and several batches, each item being a task whose shim lock / atomic operations are scheduling points; oracle per schedule: the bytes of the one-thread run. Usable CPUs as an environment dimension: the command line under `taskset` with 1, 2, 3 and 6 usable CPUs (thorough: every count below the machine's) x -t in (0,1,2,3,4,8,16) x 3, 16 and 37 records; oracle: the result of the unrestricted one-thread run. Output as a FIFO with a slow reader (8 threads, 9 MB of long lines; free-running, one execution per kind, thorough three): same canonical content as the one-thread run into a regular file.",
         "assumptions": COMMON_ASSUME + ["batches with more items than pool threads run free (which items start first is then rayon's choice); tasks that do not announce themselves (a bare scope.spawn) are not scheduled"],
     },
     "C12": {
         "technique": "bounded-exhaustive enumeration of inputs and configurations against a reference model, plus stateless controlled-scheduler exploration of the items of the data-parallel batch path",
         "needs": ["harness", "cli"],
-        "parts": [ktmc("C12"), ktmc("C12batch"), lambda tier: __import__("hist").c_env_cpus(tier, ['kcgr']), lambda tier: __import__("hist").c_sink_fifo(tier, ['kcgr']), lambda tier: __import__("hist").c12_huge_output(tier)],
+        "parts": [ktmc("C12"), ktmc("C12batch"), lambda tier: __import__("hist").c_env_cpus(tier, ['kcgr']), lambda tier: __import__("hist").c_sink_fifo(tier, ['kcgr']), lambda tier: __import__("hist").c_source_fifo(tier, ['kcgr']), lambda tier: __import__("hist").c12_huge_output(tier)],
         "rule": "k 1..=7 x 5 square sizes x norm/raw: every string over {A,C,G,T,N} up to the stated length (k<=3) or "
                 "a structured family (k 4..=7): one triple per canonical column in rank order, coordinates bit-exact "
                 "= chaos-game end point of the column's k-mer text, frequency identical to the oligo vector and to "
                 "the model; file path x threads x batch limits. Non-trivial = record at least k long."
-                " Batch path under the controlled scheduler: every order in which the items of a batch of 2 or 3 records run (4 records: up to the stated preemption bound), one batch and several batches, each item being a task whose shim lock / atomic operations are scheduling points; oracle per schedule: the bytes of the one-thread run. Usable CPUs as an environment dimension: the command line under `taskset` with 1, 2, 3 and 6 usable CPUs (thorough: every count below the machine's) x -t in (0,1,2,3,4,8,16) x 3, 16 and 37 records; oracle: the result of the unrestricted one-thread run.",
+                " Batch path under the controlled scheduler: every order in which the items of a batch of 2 or 3 records run (4 records: up to the stated preemption bound), one batch and several batches, each item being a task whose shim lock / atomic operations are scheduling points; oracle per schedule: the bytes of the one-thread run. Usable CPUs as an environment dimension: the command line under `taskset` with 1, 2, 3 and 6 usable CPUs (thorough: every count below the machine's) x -t in (0,1,2,3,4,8,16) x 3, 16 and 37 records; oracle: the result of the unrestricted one-thread run. Output as a FIFO with a slow reader (8 threads, 9 MB of long lines; free-running, one execution per kind, thorough three): same canonical content as the one-thread run into a regular file. Thorough tier: one batch of 2.3 GB of text (10 400 reads, k = 7) equals the outputs of its two halves.",
         "assumptions": COMMON_ASSUME + ["batches with more items than pool threads run free (which items start first is then rayon's choice); tasks that do not announce themselves (a bare scope.spawn) are not scheduled"],
     },
 })
@@ -169,7 +169,7 @@ PROPS.update({
         "engine": "ktmc-sched",
         "technique": "stateless controlled-scheduler exploration of worker interleavings (iterative preemption bounding) plus exhaustive configuration lattice",
         "needs": ["harness", "cli"],
-        "parts": [ktmc("C05sched"), ktmc("C05cfg"), ktmc("C04batch"), lambda tier: __import__("hist").c_env_threads(tier, ["oligo"]), lambda tier: __import__("hist").c_env_cpus(tier, ['oligo']), lambda tier: __import__("hist").c_sink_fifo(tier, ['oligo-c'])],
+        "parts": [ktmc("C05sched"), ktmc("C05cfg"), ktmc("C04batch"), lambda tier: __import__("hist").c_env_threads(tier, ["oligo"]), lambda tier: __import__("hist").c_env_cpus(tier, ['oligo']), lambda tier: __import__("hist").c_sink_fifo(tier, ['oligo-c']), lambda tier: __import__("hist").c_source_fifo(tier, ['oligo-c'])],
         "rule": "schedules: depth-first exploration by re-execution of every interleaving of the real mmap worker loop "
                 "(N=2 and the small N=3 case unbounded, larger N=3 and N=4 up to the stated preemption bound) over 2-6 "
                 "records with pairwise different rows, at the default and at small batch-memory limits; oracle per schedule: output bytes = rows in input order; observed record->worker assignments "
@@ -177,7 +177,7 @@ PROPS.update({
                 "short ones) x threads 1..=16 x batch limits x both writers x 7 containers (x header x "
                 "delimiters), and every record count 0..=40, 63..65, 127, 129 x threads 1..=8, 16: row i = record i. "
                 "states = branching decision points + terminal states, transitions = scheduling steps executed, "
-                "traces = complete schedules executed on the real code. Every schedule/configuration is distinct. Usable CPUs as an environment dimension: the command line under `taskset` with 1, 2, 3 and 6 usable CPUs (thorough: every count below the machine's) x -t in (0,1,2,3,4,8,16) x 3, 16 and 37 records; oracle: the result of the unrestricted one-thread run. More than 2^16 records (one longer record, then 65 600 short ones) with 2 workers (thorough: also 3): every way of preempting the workers within the first 16 (thorough 40) decisions at bound 1, each continued by default, so that a preempted worker resumes after the others have taken every remaining record.",
+                "traces = complete schedules executed on the real code. Every schedule/configuration is distinct. Usable CPUs as an environment dimension: the command line under `taskset` with 1, 2, 3 and 6 usable CPUs (thorough: every count below the machine's) x -t in (0,1,2,3,4,8,16) x 3, 16 and 37 records; oracle: the result of the unrestricted one-thread run. More than 2^16 records (one longer record, then 65 600 short ones) with 2 workers (thorough: also 3): every way of preempting the workers within the first 16 (thorough 40) decisions at bound 1, each continued by default, so that a preempted worker resumes after the others have taken every remaining record. Output as a FIFO with a slow reader (8 threads, 9 MB of long lines; free-running, one execution per kind, thorough three): same canonical content as the one-thread run into a regular file. Byte identity: the first configuration of a (record set, k, header, delimiter) seen by a process is the byte reference of all later ones (writers, threads, limits, containers); record sets with decimal-tie frequencies and with 41 MB of text in one batch; delimiters with multi-byte characters; mismatching .fai/.gzi side-cars next to every input.",
         "states": SCHED_STATES,
         "assumptions": SCHED_ASSUME + ["batches with more items than pool threads run free (which items start first is then rayon's choice); tasks that do not announce themselves (a bare scope.spawn) are not scheduled"],
     },
@@ -199,7 +199,7 @@ PROPS.update({
         "engine": "ktmc-sched",
         "technique": "stateless controlled-scheduler exploration of count/merge worker interleavings with phase-barrier state caching, plus exhaustive configuration enumeration",
         "needs": ["harness", "cli"],
-        "parts": [ktmc("C07sched"), ktmc("C07cfg"), lambda tier: __import__("hist").c_env_threads(tier, ["ctr"]), lambda tier: __import__("hist").c_env_cpus(tier, ['ctr'])],
+        "parts": [ktmc("C07sched"), ktmc("C07cfg"), lambda tier: __import__("hist").c_env_threads(tier, ["ctr"]), lambda tier: __import__("hist").c_env_cpus(tier, ['ctr']), lambda tier: __import__("hist").c_env_nofile(tier)],
         "rule": "schedules: every interleaving (up to the stated preemption bound) of the real count() workers - limit "
                 "check, reader mutex, record taken, every map operation, atomic additions, exit - for 2-3 workers and "
                 "2-4 records colliding on the same k-mers (same strand and opposite strands, with records that hold "
@@ -210,7 +210,7 @@ PROPS.update({
                 "configurations: every single record over {A,C,G,T,N}^(<=4) and every pair over two alphabets holding "
                 "both strands (thorough: more alphabets and triples) x k x 8 (threads, ceiling) settings (1 to 14 "
                 "chunks, 1 to 700 partitions, one to 16 workers), ACGT and numeric rendering, repetitive inputs for "
-                "k 15, 31. Usable CPUs as an environment dimension: the command line under `taskset` with 1, 2, 3 and 6 usable CPUs (thorough: every count below the machine's) x -t in (0,1,2,3,4,8,16) x 3, 16 and 37 records; oracle: the result of the unrestricted one-thread run. More than 2^16 records (one longer record, then 65 600 short ones) with 2 workers (thorough: also 3): every way of preempting the workers within the first 16 (thorough 40) decisions at bound 1, each continued by default, so that a preempted worker resumes after the others have taken every remaining record.",
+                "k 15, 31. Usable CPUs as an environment dimension: the command line under `taskset` with 1, 2, 3 and 6 usable CPUs (thorough: every count below the machine's) x -t in (0,1,2,3,4,8,16) x 3, 16 and 37 records; oracle: the result of the unrestricted one-thread run. More than 2^16 records (one longer record, then 65 600 short ones) with 2 workers (thorough: also 3): every way of preempting the workers within the first 16 (thorough 40) decisions at bound 1, each continued by default, so that a preempted worker resumes after the others have taken every remaining record. Every number of distinct 21-mers 1..=1500 (thorough 50 000) in one record, both renderings. Equal records 2^8 and 2^16 (one less, one more) records apart.",
         "states": SCHED_STATES,
         "assumptions": SCHED_ASSUME + ["merge scheduling is explored when chunks <= pool threads (otherwise which chunk tasks start first is rayon's choice and the phase runs free)",
                                        "configuration runs use free-running threads"],
@@ -219,13 +219,13 @@ PROPS.update({
         "engine": "ktmc-sched",
         "technique": "stateless controlled-scheduler exploration of the s2m / m2s worker interleavings plus exhaustive configuration enumeration",
         "needs": ["harness", "cli"],
-        "parts": [ktmc("C10sched"), ktmc("C10cfg"), lambda tier: __import__("hist").c_env_cpus(tier, ['s2m', 'm2s']), lambda tier: __import__("hist").c_sink_fifo(tier, ['s2m', 'm2s'])],
+        "parts": [ktmc("C10sched"), ktmc("C10cfg"), lambda tier: __import__("hist").c_env_cpus(tier, ['s2m', 'm2s']), lambda tier: __import__("hist").c_sink_fifo(tier, ['s2m', 'm2s']), lambda tier: __import__("hist").c_source_fifo(tier, ['s2m', 'm2s', 's2m-w0'])],
         "rule": "schedules: every interleaving (N=2 unbounded where feasible, N=3 preemption-bounded) of seq_to_min and "
                 "bin_sequences workers over 2-3 records sharing minimisers (m=2, w=0 and w=3); oracle per schedule: "
                 "s2m = one line per record with the model's runs (multiset of lines), m2s = exact inversion of the "
                 "model's s2m (multiset per minimiser), w=0 means the whole record. configurations: all strings over "
                 "{A,C,G,T,N} up to length 5 (thorough 6) as one file x m 1..=3 x w in (0,m+1,m+2) x threads "
-                "(1,2,4,16), and every list of 2 (thorough 3) short records x 5 settings. Usable CPUs as an environment dimension: the command line under `taskset` with 1, 2, 3 and 6 usable CPUs (thorough: every count below the machine's) x -t in (0,1,2,3,4,8,16) x 3, 16 and 37 records; oracle: the result of the unrestricted one-thread run. More than 2^16 records (one longer record, then 65 600 short ones) with 2 workers (thorough: also 3): every way of preempting the workers within the first 16 (thorough 40) decisions, each continued by default, so that a preempted worker resumes after the others have taken every remaining record.",
+                "(1,2,4,16), and every list of 2 (thorough 3) short records x 5 settings. Usable CPUs as an environment dimension: the command line under `taskset` with 1, 2, 3 and 6 usable CPUs (thorough: every count below the machine's) x -t in (0,1,2,3,4,8,16) x 3, 16 and 37 records; oracle: the result of the unrestricted one-thread run. More than 2^16 records (one longer record, then 65 600 short ones) with 2 workers (thorough: also 3): every way of preempting the workers within the first 16 (thorough 40) decisions, each continued by default, so that a preempted worker resumes after the others have taken every remaining record. Output as a FIFO with a slow reader (8 threads, 9 MB of long lines; free-running, one execution per kind, thorough three): same canonical content as the one-thread run into a regular file.",
         "states": SCHED_STATES,
         "assumptions": SCHED_ASSUME + ["configuration runs use free-running threads"],
     },
@@ -276,7 +276,7 @@ PROPS.update({
                 "to length 4 and every code point of the Basic Multilingual Plane (plus a stride through the astral "
                 "planes) alone and inside a clean context; batch calls of every size 0..=64, 1000, 4096 under 4 pool sizes; iterators drained "
                 "after their source string was released and the heap churned. Oracle: what the core crates compute "
-                "on the same bytes (expectation file from ktmc). Non-trivial = non-empty expected result. One batch per shape (many small / medium / few large records) whose sequences add up to more than 2^28 bases (thorough: also more than 2^32); oracle: vectorise_one of each record, in argument order.",
+                "on the same bytes (expectation file from ktmc). Non-trivial = non-empty expected result. One batch per shape (many small / medium / few large records) whose sequences add up to more than 2^28 bases (thorough: also more than 2^32); oracle: vectorise_one of each record, in argument order. Python threads sharing one CgrComputer / OligoComputer (valid batches next to refused ones; free-running repetition).",
         "assumptions": HIST_ASSUME + ["rayon's schedule inside the extension's batch calls is not controlled (closure is pure; ordered collect trusted)"],
     },
 })
@@ -292,20 +292,20 @@ PROPS.update({
                 "k-mer cgr, cov, min s2m and m2s with w=0 and w>m, ctr) x threads (1,4) on the release binary; oracle: "
                 "exit 0 within 20 s (whole-sequence CGR may refuse non-nucleotide records), exactly one row per "
                 "record equal to the model's (all-zero / id only where nothing is computable), no placeholder "
-                "rendered. Every case is a distinct (variant, list, threads) triple.",
+                "rendered. Every case is a distinct (variant, list, threads) triple. A quarter of the cases (by content) run with stderr on a pseudo-terminal; lists without empty records also as FASTQ (one line per part, and wrapped at 3 with quality lines starting with @ and +); a third with index side-cars next to the input.",
         "assumptions": HIST_ASSUME,
     },
     "C17": {
         "engine": "hist",
         "needs": ["harness", "cli"],
         "technique": "explicit-state breadth-first search over on-disk states with the real subcommands as the transition function",
-        "parts": [hist_part("c17"), hist_part("c17_devices"), hist_part("c17_interrupted")],
+        "parts": [hist_part("c17"), hist_part("c17_devices"), hist_part("c17_interrupted"), hist_part("c17_near_inputs")],
         "rule": "states = canonical content of the shared output location; transitions = real runs from an alphabet of "
                 "4-8 runs per output kind (different inputs, k, threads, writer paths, memory ceilings that leave "
                 "temp files of larger chunk x partition grids); search from the empty location and from a location "
                 "pre-filled with longer garbage, to a fixpoint or depth 3 (thorough 4; the counter/coverage directory one level less); invariant on every transition: "
                 "documented result files = the same run alone in a fresh location (bytes for ordered outputs, line "
-                "multisets for unordered ones); the same run twice is part of every state's fan-out. File identity across file systems (private mount namespace, two fresh tmpfs mounts): for 8 subcommand variants the stale output lies on another file system with the input's inode number (the -o path, and the result file inside a directory output), on another file system with another number, or on the input's own; oracle: same canonical content as a fresh location.",
+                "multisets for unordered ones); the same run twice is part of every state's fan-out. File identity across file systems (private mount namespace, two fresh tmpfs mounts): for 8 subcommand variants the stale output lies on another file system with the input's inode number (the -o path, and the result file inside a directory output), on another file system with another number, or on the input's own; oracle: same canonical content as a fresh location. Interrupted earlier runs: a 300-record run cut off by RLIMIT_FSIZE = L for every L of a ladder 0..1 MiB (thorough 64 B..4 MiB, quarter-octave steps), then a complete 3-record run into the same location, 9 command variants; oracle: the documented result files of a fresh location.",
         "states": (["hist.states"], ["hist.transitions"], ["hist.traces"]),
         "assumptions": HIST_ASSUME + ["state canonicalisation hashes unordered files as sorted line multisets: later runs truncate or rewrite them before reading, so line order cannot influence the future"],
     },
